@@ -138,6 +138,10 @@ def load(inf, lazy=False):
         The array object contained in the file
 
     """
+    if hasattr(inf, 'read') and isinstance(inf.read(0), str):
+        # a stream opened in text mode cannot hold HDF5 data: it is yaml text
+        return serialize.load(inf)
+
     try:
         with xr.open_dataset(default_extension(inf), engine='h5netcdf') as ds:
             if '_source_class' in ds.attrs:
